@@ -22,6 +22,7 @@ THEOREMS = [
     "Ural.Props.C14.unquote_no_space",
     "Ural.Props.C14.unquote_delimiters",
     "Ural.Props.C14.unquote_no_new_control",
+    "Ural.Props.C14.unquote_idempotent",
 ]
 TABLE_OBLIGATIONS = [
     "Ural.Props.C14.tables_percent_unsafe",
@@ -30,6 +31,7 @@ TABLE_OBLIGATIONS = [
     "Ural.Props.C14.tables_query_delims",
     "Ural.Props.C14.tables_flags",
     "Ural.Props.C14.tables_patterns",
+    "Ural.Props.C14.tables_ascii",
 ]
 RULE = (
     "A case is a string assembled from the token alphabet of the property's quantifier "
@@ -58,8 +60,8 @@ ASSUMPTIONS = [
     "plain ural.quote.unquote (lossless=False / other flag settings) is outside the model: C14 is about the safely_* functions",
 ]
 UNPROVED = (
-    "idempotence of the safely_unquote_* functions is not yet a theorem (it needs a lemma on "
-    "re-segmentation of sub-runs of decoded bytes); it is explored by the oracle on every case"
+    "the upper_quoted clause (only hex digits of valid escapes change case) is not yet a theorem about "
+    "the scan of the output; it is checked by the oracle and the model comparison on every case"
 )
 
 ATOMS = [
